@@ -423,6 +423,8 @@ impl ConvMon {
         defined[0] = true;
         defined[A0 as usize] = true;
         defined[A1 as usize] = true;
+        // (the environment hands the top-level code a valid stack pointer: it may build a frame below it)
+        defined[SP as usize] = true;
         ConvMon {
             stack: vec![ConvFrame {
                 defined,
@@ -494,7 +496,7 @@ impl ConvMon {
                 let sp_now = ev.reads.iter().find(|(r, _)| *r == SP).map(|(_, v)| *v).unwrap_or(0);
                 let lo = sp_now;
                 let hi = f.entry_sp;
-                let inside = !f.is_top && a >= lo && a.wrapping_add(bytes) <= hi && lo <= hi;
+                let inside = a >= lo && a.wrapping_add(bytes) <= hi && lo <= hi;
                 if !inside {
                     self.breach(format!("stack-access-outside-frame@{idx}"));
                 }
